@@ -126,6 +126,12 @@ func c10(r *Report) propMeta {
 	r.Include("C03", "C03.R1", "C03.R3")
 	r.Include("C05", "C05.R4")
 
+	r.Rule("C10.lint", "E8 module lint: no nondeterminism / process-local state in x/tss")
+	r.ModuleLint("module-lint", "tss", 20)
+
+	r.Rule("C10.iter", "E14 store-iterator loops run to exhaustion")
+	r.IteratorLoopCensus("iter", []string{"x/tss/", "x/bandtss/"}, nil, 10)
+
 	return propMeta{
 		Decided: []string{
 			"R1 Signing.Status: SUCCESS only in AggregatePartialSignatures, FALLEN only in HandleFailedSigning, WAITING only in InitiateNewSigningRound / constructor; CurrentAttempt only ever incremented by one; the lifecycle functions are called only from HandleSigningEndBlock (and RequestSigning for the first round)",
@@ -136,6 +142,8 @@ func c10(r *Report) propMeta {
 			"R6 every KV-store Get/Has/Delete of x/tss uses a key builder of x/tss/types that some Set of the module also uses (a probe of an iteration prefix or of a sibling family is always-empty state)",
 			"R7 the signer selection is a partial Fisher-Yates over positions of the eligible list (same rule as C09.R3): a put-back slip yields committees with one member twice, whose attempt can never reach the full partial-signature count (seed C10-5)",
 			"R8 the literal constructors of x/tss/types (frozen list) store each parameter or a constant unchanged in the record they build: what a handler validated is what is stored",
+			"lint: the determinism lint (incl. writes to memory held by long-lived objects) over everything reachable from the handlers and blockers of x/tss",
+			"iter: every KV-store iterator loop of the module's keeper runs until the iterator is exhausted (header is the bare Valid() test, no other way out but panic / error return), except reviewed early stops",
 		},
 		Undecided: []string{"termination itself and 'timed out exactly then' (liveness over schedules)", "that InitiateNewSigningRound is only ever reached for WAITING signings (history invariant)"},
 		Assume:    []string{"VTA resolves the callback router to bandtss TSSCallback", "CacheContext isolation"},
